@@ -1,0 +1,19 @@
+//go:build verif
+
+package machine
+
+import "github.com/pancsta/asyncmachine-go/internal/verifhook"
+
+// Verification-harness access to the schedule points (only with -tags verif).
+
+// VerifHookSet installs fn at the named schedule point (nil removes it).
+func VerifHookSet(name string, fn func()) { verifhook.Set(name, fn) }
+
+// VerifHookCount enables hit counting for the named point.
+func VerifHookCount(name string) { verifhook.Count(name) }
+
+// VerifHookClear removes all installed functions and counters.
+func VerifHookClear() { verifhook.Clear() }
+
+// VerifHookHits returns a copy of the hit counters.
+func VerifHookHits() map[string]uint64 { return verifhook.Hits() }
